@@ -2617,3 +2617,62 @@ func specPending(hm *HandshakeManager, vpnIp netip.Addr) *HandshakeHostInfo { re
 //@   ensures[copied] implies(n0 < maxCachedPackets && 0 <= j && j < len(packet), hh.packetStore[n0].packet[j] == old(packet[j]))
 //@   ensures[kept]   implies(0 <= j && j < n0, hh.packetStore[j] == ej)
 //@   ensures[full]   implies(n0 >= maxCachedPackets, len(hh.packetStore) == n0)
+
+// ---- C16, rule level: FirewallRule.match against the documented rule semantics ----
+//
+// A rule matches when its `any` shortcut's local CIDR matches, or some group
+// set has at least one group, the certificate carries every group of the set
+// and the set's local CIDR matches, or the certificate's name has a host entry
+// whose local CIDR matches, or some prefix of the rule's remote-CIDR table
+// that covers the packet's remote address has a local CIDR that matches. The
+// remote-CIDR table is read through bart's Supernets iterator, abstracted to
+// "the covering prefixes' values, as a sequence" (specSupLen / specSupVal).
+
+//@ func specSupLen
+//@   opaque
+func specSupLen(t *bart.Table[*firewallLocalCIDR], pfx netip.Prefix) int { return 0 }
+
+//@ func specSupKey
+//@   opaque
+func specSupKey(t *bart.Table[*firewallLocalCIDR], pfx netip.Prefix, i int) netip.Prefix { return pfx }
+
+//@ func specSupVal
+//@   opaque
+func specSupVal(t *bart.Table[*firewallLocalCIDR], pfx netip.Prefix, i int) *firewallLocalCIDR { return nil }
+
+//@ func specLocalWF
+//@   pure
+func specLocalWF(flc *firewallLocalCIDR) bool {
+	return flc == nil || flc.Any || flc.LocalCIDR != nil
+}
+
+//@ func specRemotePfx
+//@   pure
+func specRemotePfx(p firewall.Packet) netip.Prefix {
+	return netip.PrefixFrom(p.RemoteAddr, p.RemoteAddr.BitLen())
+}
+
+//@ func github.com/gaissmai/bart.(*Table).Supernets[*github.com/slackhq/nebula.firewallLocalCIDR]
+//@   trusted iterator over every prefix of the table that covers pfx, with its value; reads only
+//@   yields specSupLen(t, pfx) ; specSupKey(t, pfx, rangeindex) ; specSupVal(t, pfx, rangeindex)
+//@   assigns nothing
+
+//@ func (*FirewallRule).match impl
+//@   props C16
+//@   ghost a int
+//@   ghost i int
+//@   requires c != nil && c.Certificate != nil
+//@   requires[wfAny]    implies(fr != nil, specLocalWF(fr.Any) && fr.CIDR != nil)
+//@   requires[wfGroups] implies(fr != nil, forall(func(q int) bool { return implies(0 <= q && q < len(fr.Groups), fr.Groups[q] != nil && specLocalWF(fr.Groups[q].LocalCIDR)) }))
+//@   requires[wfHosts]  implies(fr != nil && has(fr.Hosts, c.Certificate.Name()), specLocalWF(fr.Hosts[c.Certificate.Name()]))
+//@   requires[wfCIDR]   implies(fr != nil, forall(func(q int) bool { return implies(0 <= q && q < specSupLen(fr.CIDR, specRemotePfx(p)), specLocalWF(specSupVal(fr.CIDR, specRemotePfx(p), q))) }))
+//@   ensures[nil]      implies(fr == nil, !result)
+//@   ensures[any]      implies(fr != nil && specLocal(fr.Any, p), result)
+//@   ensures[group]    implies(fr != nil && 0 <= a && a < len(fr.Groups) && len(fr.Groups[a].Groups) > 0 && forall(func(b int) bool { return implies(0 <= b && b < len(fr.Groups[a].Groups), has(c.InvertedGroups, fr.Groups[a].Groups[b])) }) && specLocal(fr.Groups[a].LocalCIDR, p), result)
+//@   ensures[host]     implies(fr != nil && has(fr.Hosts, c.Certificate.Name()) && specLocal(fr.Hosts[c.Certificate.Name()], p), result)
+//@   ensures[cidr]     implies(fr != nil && 0 <= i && i < specSupLen(fr.CIDR, specRemotePfx(p)) && specLocal(specSupVal(fr.CIDR, specRemotePfx(p), i), p), result)
+//@   ensures[only]     implies(result, fr != nil && (specLocal(fr.Any, p) || exists(func(q int) bool { return 0 <= q && q < len(fr.Groups) && len(fr.Groups[q].Groups) > 0 && forall(func(b int) bool { return implies(0 <= b && b < len(fr.Groups[q].Groups), has(c.InvertedGroups, fr.Groups[q].Groups[b])) }) && specLocal(fr.Groups[q].LocalCIDR, p) }) || (has(fr.Hosts, c.Certificate.Name()) && specLocal(fr.Hosts[c.Certificate.Name()], p)) || exists(func(q int) bool { return 0 <= q && q < specSupLen(fr.CIDR, specRemotePfx(p)) && specLocal(specSupVal(fr.CIDR, specRemotePfx(p), q), p) })))
+//@   assigns nothing
+//@   loop 1 invariant[nomatch] implies(0 <= a && a < rangeindex && len(fr.Groups[a].Groups) > 0 && forall(func(b int) bool { return implies(0 <= b && b < len(fr.Groups[a].Groups), has(c.InvertedGroups, fr.Groups[a].Groups[b])) }), !specLocal(fr.Groups[a].LocalCIDR, p))
+//@   loop 2 invariant[found]   found == (rangeindex > 0) && forall(func(b int) bool { return implies(0 <= b && b < rangeindex, has(c.InvertedGroups, rangeslice[b])) })
+//@   rangefunc 1 invariant[nomatch] implies(0 <= i && i < rangeindex, !specLocal(specSupVal(fr.CIDR, specRemotePfx(p), i), p))
